@@ -312,6 +312,24 @@ def run(rep: common.Report, tier: str, seed: int, replay=None) -> int:
                 jac = abs(fx * fy) if nm == "scale" else 1.0
                 if abs(b.area - jac * a.area) > 1e-9 * max(1.0, jac * a.area):
                     rep.violation(f"Device.{nm}: polygon {a.name!r} area is not the mapped area", mcase)
+        # probe points given as integers (a list of int tuples is ordinary input) move like any other point
+        try:
+            devi = tdgl.Device("int probes", layer=dev.layer, film=dev.film, holes=list(dev.holes), terminals=list(dev.terminals),
+                               probe_points=[(1, 1), (-2, 0), (2, -1)], length_units=dev.length_units)
+        except ValueError:
+            devi = None          # a probe point happens to lie in a hole of this device
+        if devi is not None:
+            pp0 = np.array(devi.probe_points, dtype=float)
+            for nm, dT, want_pp in (("translate(0.25, -0.5)", devi.translate(0.25, -0.5), pp0 + np.array([[0.25, -0.5]])),
+                                    ("scale(1.5, 0.5)", devi.scale(xfact=1.5, yfact=0.5), pp0 * np.array([[1.5, 0.5]])),
+                                    ("rotate(90)", devi.rotate(90.0), np.stack([-pp0[:, 1], pp0[:, 0]], axis=1))):
+                if dT.probe_points is None or np.max(np.abs(np.asarray(dT.probe_points, dtype=float) - want_pp)) > 1e-9:
+                    rep.violation(f"Device.{nm} does not map integer-valued probe points with the shapes", {"device": di})
+            with devi.translation(0.3, 0.7):
+                inside = np.array(devi.probe_points, dtype=float)
+            if np.max(np.abs(inside - (pp0 + np.array([[0.3, 0.7]])))) > 1e-9 or \
+                    np.max(np.abs(np.array(devi.probe_points, dtype=float) - pp0)) > 1e-9:
+                rep.violation("Device.translation() does not move integer-valued probe points there and back", {"device": di})
         for nm, d in (("scale", d2), ("rotate", d3), ("translate", d4)):
             for a, b in zip(dev.polygons, d.polygons):
                 if np.shares_memory(a.points, b.points):
